@@ -276,10 +276,24 @@ class Trimesh(Geometry3D):
             # if faces or vertices have been removed, normals are validated before
             # being returned so there is no danger of inconsistent dimensions
             self.remove_infinite_values()
+            count = len(self.vertices)
             self.merge_vertices(merge_tex=merge_tex, merge_norm=merge_norm)
             # `fix_normals` may have re-wound faces in which
             # case the stored normals point the wrong way
             keep = set() if validate else {"face_normals", "vertex_normals"}
+            if len(keep) > 0 and len(self.vertices) != count:
+                if merge_norm:
+                    # vertices with different normals were merged
+                    # so the normal of the first one is not the answer
+                    keep.discard("vertex_normals")
+                faces = self.faces.view(np.ndarray)
+                if (
+                    (faces[:, 0] == faces[:, 1])
+                    | (faces[:, 1] == faces[:, 2])
+                    | (faces[:, 2] == faces[:, 0])
+                ).any():
+                    # the merge collapsed a face which has no normal anymore
+                    keep.clear()
             self._cache.clear(exclude=keep)
 
         self.metadata["processed"] = True
